@@ -4,6 +4,7 @@ use palette::chromatic_adaptation::{AdaptFrom, AdaptFromUnclamped, Method};
 use palette::lms::matrix::{Bradford, UnitMatrix, VonKries};
 use palette::white_point::{self as wp, WhitePoint};
 use palette::Xyz;
+use pv::fl::Fl;
 use pv::{json, Collector, Ctx};
 
 fn lattice() -> Vec<[f64; 3]> {
@@ -19,84 +20,144 @@ fn lattice() -> Vec<[f64; 3]> {
     v
 }
 
-macro_rules! pair {
-    ($c:ident, $n:ident, $T:ty, $sn:literal, $S:ty, $dn:literal, $D:ty) => {{
-        type T = $T;
-        let tn = stringify!($T);
-        let same = $sn == $dn;
-        let sw: Xyz<$S, T> = <$S as WhitePoint<T>>::get_xyz().with_white_point();
-        let dw: Xyz<$D, T> = <$D as WhitePoint<T>>::get_xyz().with_white_point();
-        let mut pts: Vec<[T; 3]> = lattice().into_iter().map(|p| [p[0] as T, p[1] as T, p[2] as T]).collect();
-        pts.push([sw.x, sw.y, sw.z]);
-        // tolerance: the cone matrices and their published inverses have 7 digits (mutually
-        // inverse to ~4e-7 with entries up to 1.7); XYZ scaling is exact up to rounding
-        let (t_cone, t_unit): (f64, f64) = if tn == "f32" { (2e-5, 2e-6) } else { (4e-6, 1e-12) };
-        macro_rules! method {
-            ($mn:literal, $M:ty, $old:expr, $tol:expr) => {{
-                for p in &pts {
-                    let x: Xyz<$S, T> = Xyz::new(p[0], p[1], p[2]);
-                    $n += 1;
-                    let case = json!({"sub": "adapt", "float": tn, "from": $sn, "to": $dn, "method": $mn, "input": [p[0] as f64, p[1] as f64, p[2] as f64]});
-                    let r = pv::catch(|| {
-                        let y: Xyz<$D, T> = Xyz::adapt_from_unclamped_with::<$M>(x);
-                        let back: Xyz<$S, T> = Xyz::adapt_from_unclamped_with::<$M>(y);
-                        let o: Xyz<$D, T> = Xyz::adapt_from_using(x, $old);
-                        (y, back, o)
-                    });
-                    let (y, back, o) = match r {
-                        Ok(v) => v,
-                        Err(msg) => {
-                            $c.violation(&format!("C14/adapt/{}/{}/panic", $mn, tn), 1.0, || json!({"sub": "adapt", "case": case, "input": case["input"], "observed": {"panic": msg}, "expected": "no panic"}));
-                            continue;
-                        }
-                    };
-                    let is_white = p[0] == sw.x && p[1] == sw.y && p[2] == sw.z;
-                    if same {
-                        // identity between equal white points: bit exact (new API)
-                        if (y.x.to_bits(), y.y.to_bits(), y.z.to_bits()) != (p[0].to_bits(), p[1].to_bits(), p[2].to_bits()) {
-                            $c.violation(&format!("C14/adapt-identity/{}/{}/{}", $mn, tn, $sn), 1.0, || json!({"sub": "adapt", "what": "identity between equal white points", "float": tn, "from": $sn, "to": $dn, "method": $mn, "input": [p[0] as f64, p[1] as f64, p[2] as f64], "observed": [y.x as f64, y.y as f64, y.z as f64], "expected": "bit-identical"}));
-                        }
-                        let d = ((o.x - p[0]).abs() as f64).max((o.y - p[1]).abs() as f64).max((o.z - p[2]).abs() as f64);
-                        if !(d <= $tol * 1.2) {
-                            $c.violation(&format!("C14/adapt-identity-deprecated-api/{}/{}/{}", $mn, tn, $sn), d, || json!({"sub": "adapt", "what": "identity between equal white points (AdaptFrom)", "float": tn, "from": $sn, "to": $dn, "method": $mn, "input": [p[0] as f64, p[1] as f64, p[2] as f64], "observed": [o.x as f64, o.y as f64, o.z as f64], "expected": "input"}));
-                        }
-                    }
-                    if is_white {
-                        let d = ((y.x - dw.x).abs() as f64).max((y.y - dw.y).abs() as f64).max((y.z - dw.z).abs() as f64);
-                        $c.ratio("adapt-white", d / $tol, || case.clone());
-                        if !(d <= $tol) {
-                            $c.violation(&format!("C14/adapt-white/{}/{}/{}->{}", $mn, tn, $sn, $dn), d, || json!({"sub": "adapt", "what": "source white -> destination white", "float": tn, "from": $sn, "to": $dn, "method": $mn, "input": [p[0] as f64, p[1] as f64, p[2] as f64], "observed": [y.x as f64, y.y as f64, y.z as f64], "expected": [dw.x as f64, dw.y as f64, dw.z as f64], "tol": $tol}));
-                        }
-                    }
-                    // there and back (scaled by the size of the gains: a white point pair like A -> C has gains up to 3.3)
-                    let d = ((back.x - p[0]).abs() as f64).max((back.y - p[1]).abs() as f64).max((back.z - p[2]).abs() as f64);
-                    $c.ratio("adapt-roundtrip", d / (4.0 * $tol), || case.clone());
-                    if !(d <= 4.0 * $tol) {
-                        $c.violation(&format!("C14/adapt-roundtrip/{}/{}/{}->{}", $mn, tn, $sn, $dn), d, || json!({"sub": "adapt", "what": "adapt there and back", "float": tn, "from": $sn, "to": $dn, "method": $mn, "input": [p[0] as f64, p[1] as f64, p[2] as f64], "observed": [back.x as f64, back.y as f64, back.z as f64], "expected": "input", "tol": 4.0 * $tol}));
-                    }
-                    // deprecated and new API agree
-                    let d = ((o.x - y.x).abs() as f64).max((o.y - y.y).abs() as f64).max((o.z - y.z).abs() as f64);
-                    if !(d <= 4.0 * $tol) {
-                        $c.violation(&format!("C14/adapt-api-agreement/{}/{}/{}->{}", $mn, tn, $sn, $dn), d, || json!({"sub": "adapt", "what": "AdaptFrom vs AdaptFromUnclamped", "float": tn, "from": $sn, "to": $dn, "method": $mn, "input": [p[0] as f64, p[1] as f64, p[2] as f64], "observed": [o.x as f64, o.y as f64, o.z as f64], "expected": [y.x as f64, y.y as f64, y.z as f64]}));
-                    }
-                    $c.outcome((y.x as f64).to_bits() ^ (y.z as f64).to_bits().rotate_left(29));
-                }
-            }};
+trait PairRun {
+    fn run(c: &mut Collector, n: &mut u64);
+}
+
+#[allow(clippy::too_many_arguments)]
+fn check_pair<T: Fl>(c: &mut Collector, n: &mut u64, sn: &str, dn: &str, mn: &str, tol: f64, sw: [T; 3], dw: [T; 3], f: &dyn Fn([T; 3]) -> ([T; 3], [T; 3], [T; 3])) {
+    let tn = T::NAME;
+    let same = sn == dn;
+    let mut pts: Vec<[T; 3]> = lattice().into_iter().map(|p| [T::from64(p[0]), T::from64(p[1]), T::from64(p[2])]).collect();
+    pts.push(sw);
+    let d3 = |a: [T; 3], b: [T; 3]| -> f64 { (a[0].to64() - b[0].to64()).abs().max((a[1].to64() - b[1].to64()).abs()).max((a[2].to64() - b[2].to64()).abs()) };
+    let f3 = |a: [T; 3]| -> Vec<f64> { a.iter().map(|x| x.to64()).collect() };
+    for p in &pts {
+        *n += 1;
+        let base = |what: &str| json!({"sub": "adapt", "what": what, "float": tn, "from": sn, "to": dn, "method": mn, "input": f3(*p)});
+        let r = pv::catch(|| f(*p));
+        let (y, back, o) = match r {
+            Ok(v) => v,
+            Err(msg) => {
+                c.violation(&format!("C14/adapt/{}/{}/panic", mn, tn), 1.0, || {
+                    let mut b = base("adapt");
+                    b["observed"] = json!({"panic": msg});
+                    b
+                });
+                continue;
+            }
+        };
+        let is_white = p[0].bits64() == sw[0].bits64() && p[1].bits64() == sw[1].bits64() && p[2].bits64() == sw[2].bits64();
+        if same {
+            if (y[0].bits64(), y[1].bits64(), y[2].bits64()) != (p[0].bits64(), p[1].bits64(), p[2].bits64()) {
+                c.violation(&format!("C14/adapt-identity/{}/{}/{}", mn, tn, sn), 1.0, || {
+                    let mut b = base("identity between equal white points");
+                    b["observed"] = json!(f3(y));
+                    b["expected"] = json!("bit-identical");
+                    b
+                });
+            }
+            let d = d3(o, *p);
+            if !(d <= tol * 1.2) {
+                c.violation(&format!("C14/adapt-identity-deprecated-api/{}/{}/{}", mn, tn, sn), d, || {
+                    let mut b = base("identity between equal white points (AdaptFrom)");
+                    b["observed"] = json!(f3(o));
+                    b
+                });
+            }
         }
-        method!("Bradford", Bradford, Method::Bradford, t_cone);
-        method!("VonKries", VonKries, Method::VonKries, t_cone);
-        method!("XyzScaling", UnitMatrix, Method::XyzScaling, t_unit.max(if tn == "f32" { 2e-6 } else { 1e-12 }));
-    }};
+        if is_white {
+            let d = d3(y, dw);
+            c.ratio("adapt-white", d / tol, || base("white"));
+            if !(d <= tol) {
+                c.violation(&format!("C14/adapt-white/{}/{}/{}->{}", mn, tn, sn, dn), d, || {
+                    let mut b = base("source white -> destination white");
+                    b["observed"] = json!(f3(y));
+                    b["expected"] = json!(f3(dw));
+                    b["tol"] = json!(tol);
+                    b
+                });
+            }
+        }
+        let d = d3(back, *p);
+        c.ratio("adapt-roundtrip", d / (4.0 * tol), || base("roundtrip"));
+        if !(d <= 4.0 * tol) {
+            c.violation(&format!("C14/adapt-roundtrip/{}/{}/{}->{}", mn, tn, sn, dn), d, || {
+                let mut b = base("adapt there and back");
+                b["observed"] = json!(f3(back));
+                b["tol"] = json!(4.0 * tol);
+                b
+            });
+        }
+        let d = d3(o, y);
+        if !(d <= 4.0 * tol) {
+            c.violation(&format!("C14/adapt-api-agreement/{}/{}/{}->{}", mn, tn, sn, dn), d, || {
+                let mut b = base("AdaptFrom vs AdaptFromUnclamped");
+                b["observed"] = json!(f3(o));
+                b["expected"] = json!(f3(y));
+                b
+            });
+        }
+        c.outcome(y[0].bits64() ^ y[2].bits64().rotate_left(29));
+    }
+}
+
+/// one (source, destination, float) triple with concrete types: its own small function
+macro_rules! pair {
+    ($T:ty, $sn:literal, $S:ty, $dn:literal, $D:ty) => {
+        impl PairRun for ($S, $D, $T) {
+            fn run(c: &mut Collector, n: &mut u64) {
+                type T = $T;
+                let sw: Xyz<$S, T> = <$S as WhitePoint<T>>::get_xyz().with_white_point();
+                let dw: Xyz<$D, T> = <$D as WhitePoint<T>>::get_xyz().with_white_point();
+                // tolerance: the cone matrices and their published inverses have 7 digits (mutually
+                // inverse to ~4e-7 with entries up to 1.7); XYZ scaling is exact up to rounding
+                let (t_cone, t_unit): (f64, f64) = if <T as Fl>::NAME == "f32" { (2e-5, 2e-6) } else { (4e-6, 1e-12) };
+                macro_rules! m {
+                    ($mn:literal, $M:ty, $old:expr, $tol:expr) => {{
+                        let f = |p: [T; 3]| -> ([T; 3], [T; 3], [T; 3]) {
+                            let x: Xyz<$S, T> = Xyz::new(p[0], p[1], p[2]);
+                            let y: Xyz<$D, T> = Xyz::adapt_from_unclamped_with::<$M>(x);
+                            let back: Xyz<$S, T> = Xyz::adapt_from_unclamped_with::<$M>(y);
+                            let o: Xyz<$D, T> = Xyz::adapt_from_using(x, $old);
+                            ([y.x, y.y, y.z], [back.x, back.y, back.z], [o.x, o.y, o.z])
+                        };
+                        check_pair::<T>(c, n, $sn, $dn, $mn, $tol, [sw.x, sw.y, sw.z], [dw.x, dw.y, dw.z], &f);
+                    }};
+                }
+                m!("Bradford", Bradford, Method::Bradford, t_cone);
+                m!("VonKries", VonKries, Method::VonKries, t_cone);
+                m!("XyzScaling", UnitMatrix, Method::XyzScaling, t_unit);
+            }
+        }
+    };
 }
 
 macro_rules! all_pairs {
-    ($c:ident, $n:ident, $T:ty, [$(($sn:literal, $S:ty)),*], $dsts:tt) => {
-        $( all_pairs!(@row $c, $n, $T, $sn, $S, $dsts); )*
+    ($T:ty, [$(($sn:literal, $S:ty)),*], $dsts:tt) => {
+        $( all_pairs!(@row $T, $sn, $S, $dsts); )*
     };
-    (@row $c:ident, $n:ident, $T:ty, $sn:literal, $S:ty, [$(($dn:literal, $D:ty)),*]) => {
-        $( pair!($c, $n, $T, $sn, $S, $dn, $D); )*
+    (@row $T:ty, $sn:literal, $S:ty, [$(($dn:literal, $D:ty)),*]) => {
+        $( pair!($T, $sn, $S, $dn, $D); )*
     };
 }
+macro_rules! all_calls {
+    ($c:ident, $n:ident, $T:ty, [$($S:ty),*], $dsts:tt) => {
+        $( all_calls!(@row $c, $n, $T, $S, $dsts); )*
+    };
+    (@row $c:ident, $n:ident, $T:ty, $S:ty, [$($D:ty),*]) => {
+        $( <($S, $D, $T) as PairRun>::run(&mut $c, &mut $n); )*
+    };
+}
+macro_rules! wps {
+    ($T:ty) => {
+        all_pairs!($T,
+            [("A", wp::A), ("B", wp::B), ("C", wp::C), ("D50", wp::D50), ("D55", wp::D55), ("D65", wp::D65), ("D75", wp::D75), ("E", wp::E), ("F2", wp::F2), ("F7", wp::F7), ("F11", wp::F11)],
+            [("A", wp::A), ("B", wp::B), ("C", wp::C), ("D50", wp::D50), ("D55", wp::D55), ("D65", wp::D65), ("D75", wp::D75), ("E", wp::E), ("F2", wp::F2), ("F7", wp::F7), ("F11", wp::F11)]);
+    };
+}
+wps!(f64);
+wps!(f32);
 
 pub fn run(ctx: &Ctx, total: &mut Collector) {
     let sub = "adaptation";
@@ -105,15 +166,8 @@ pub fn run(ctx: &Ctx, total: &mut Collector) {
     }
     let mut c = Collector::new();
     let mut n = 0u64;
-    macro_rules! wps {
-        ($T:ty) => {
-            all_pairs!(c, n, $T,
-                [("A", wp::A), ("B", wp::B), ("C", wp::C), ("D50", wp::D50), ("D55", wp::D55), ("D65", wp::D65), ("D75", wp::D75), ("E", wp::E), ("F2", wp::F2), ("F7", wp::F7), ("F11", wp::F11)],
-                [("A", wp::A), ("B", wp::B), ("C", wp::C), ("D50", wp::D50), ("D55", wp::D55), ("D65", wp::D65), ("D75", wp::D75), ("E", wp::E), ("F2", wp::F2), ("F7", wp::F7), ("F11", wp::F11)]);
-        };
-    }
-    wps!(f64);
-    wps!(f32);
+    all_calls!(c, n, f64, [wp::A, wp::B, wp::C, wp::D50, wp::D55, wp::D65, wp::D75, wp::E, wp::F2, wp::F7, wp::F11], [wp::A, wp::B, wp::C, wp::D50, wp::D55, wp::D65, wp::D75, wp::E, wp::F2, wp::F7, wp::F11]);
+    all_calls!(c, n, f32, [wp::A, wp::B, wp::C, wp::D50, wp::D55, wp::D65, wp::D75, wp::E, wp::F2, wp::F7, wp::F11], [wp::A, wp::B, wp::C, wp::D50, wp::D55, wp::D65, wp::D75, wp::E, wp::F2, wp::F7, wp::F11]);
     c.add(sub, n, 3 * n, 4 * n, n);
     c.exhaustive(sub, true, "all 121 ordered pairs of 11 white points x {Bradford, VonKries, XYZ scaling} x 7^3 XYZ lattice points + the source white, f32 and f64; new (AdaptFromUnclamped) and deprecated (AdaptFrom) API");
     total.merge(c);
